@@ -29,6 +29,7 @@ ASSUME = [
     "vlan: the in-range, exhaustion and release-frame theorems assume GoodCfg = both ranges end below 65535 (VLAN ids are 12 bit); its complement is exactly finding KF-vlan-u16-wrap (the uint16 wrap is modelled: w16, one-cycle fuel); empty ranges are covered; the bijection theorems need no assumption",
     "vlan: vlan_in_ranges_partial exempts exactly the (NTE, pair) records that a load of the history named with an out-of-range pair (finding KF-vlan-load-range) and holds for every other NTE of the same history",
     "pppsess: the converse index direction is stated per MAC and exempts exactly the MACs that had two live sessions at once (finding KF-pppsess-mac-orphan); the id search is fuel-bounded in the model, its termination behind the 65535 guard belongs to C09",
+    "circuitkey: mackey_injective_on assumes 6-byte hardware addresses (complement = finding KF-mackey-hlen); the DHCP server's use of that key is read from pkg/dhcp/server.go (four call sites), only the key function itself is driven",
     "circuitkey: HashCircuitID is uninterpreted in hash_not_injective (any function into 64 bits); the FNV-1a model is only compared with the code",
     "index: the bijection and release-frame theorems are per key: they assume OnePerKeyAt c s v and NoRekeyAt c s v for THAT key only, from any reachable state in which the key agrees (complements = findings D59, KF-index-rekey); other keys are unrestricted",
     "index: index_sound_memstore assumes LoadsInj (every UnmarshalJSON input has at most one allocation per address; complement = D59_witness_memstore_load)",
